@@ -186,6 +186,32 @@ def run(chk):
                             chk.violation("authorization header announces a key id that did not produce the MAC",
                                           {"route": route, "schedule": f"{keeper_op} during the signer's GetKey message #{nth}", "announced": g,
                                            "mac_made_with": prod, "request": r["start"].decode("latin-1")})
+        # ---- (B') the same placements while the host REFUSES the agent's own requests (401/403/500/503): whatever the agent sends in
+        # answer to a refusal (a second attempt, if it makes one) announces the key that made its MAC, too
+        saved = dict(stack.hosts.default_plan)
+        for route in ("goalstate", "sharedconfig", "imds"):
+            for status in (401, 403, 500, 503):
+                for nth in (1, 2, 3):
+                    stack.hosts.default_plan = dict(saved, status=status, reason="X", body=b"refused")
+                    set_key(stack, K1)
+                    time.sleep(0.03)
+                    stack.ctl(f"khook {nth} {hx(K2)} {hx(KEYS[K2])}")
+                    tok += 1
+                    recs = do_sign(stack, callers, route, "r%d" % tok)
+                    time.sleep(0.05)
+                    recs += [r for r in stack.hosts.take() if not r.get("partial")]
+                    stack.ctl("khook off")
+                    time.sleep(0.03)
+                    chk.case(nontrivial_key=("placed-refused", route, status, nth, len(recs)))
+                    chk.count("placed_schedules_host_refuses")
+                    chk.count("requests_seen_while_host_refuses", len(recs))
+                    for r in recs:
+                        g, okmac, prod = verify(r)
+                        if g is not None and not okmac:
+                            chk.violation("authorization header announces a key id that did not produce the MAC",
+                                          {"route": route, "schedule": f"host answers {status}; rotation during GetKey message #{nth}", "announced": g,
+                                           "mac_made_with": prod, "request": r["start"].decode("latin-1"), "requests_sent": len(recs)})
+        stack.hosts.default_plan = saved
         # ---- (C) free-running concurrency: signers on all routes while the keeper rotates / clears / re-latches
         rounds = 2 if chk.tier == "quick" else 40
         for rd in range(rounds):
